@@ -73,6 +73,10 @@ REGISTRY["C19"] = {
           bounds="p any f64 with !(p > 0): negative, zero, -0, NaN, -inf", role="documented panic fires for every non-positive exponent"),
         H("c19_panics_on_different_games", f"{LIB}::c19", "quick", functions=["Strategies::distance", "Game::eq"], expect_fail=["*"],
           bounds="two structurally identical games at different addresses", role="documented panic fires for profiles of different games"),
+        H("c19_distance_3x2_symmetry_square", f"{LIB}::c19", "quick", functions=["Strategies::distance"], stubs=["f64::powf -> x^2 on the grid {0,1/4,1/2,3/4,1}; exponent fixed to 2"], playback=True,
+          bounds="player one 3 actions k/4 (all pairs of profiles), player two 2 actions", role="bitwise symmetric; zero iff equal (3-action infoset)"),
+        H("c19_distance_3x2_symmetry", f"{LIB}::c19", "thorough", functions=["Strategies::distance"], stubs=[_POW], playback=True,
+          bounds="player one 3 actions k/4, player two 2 actions; p any f64 in [2^-10,64]; powf by contract", role="bitwise symmetric; zero iff equal (3-action infoset, every exponent)"),
         H("c19_distance_3x2_p_ge_1", f"{LIB}::c19", "thorough", functions=["Strategies::distance"], stubs=[_POW], playback=True,
           bounds="player one 3 actions k/4, player two 2 actions; p in [1,64]", role="all assertions, 3-action infoset"),
         H("c19_distance_3x2_p_lt_1", f"{LIB}::c19", "thorough", functions=["Strategies::distance"], stubs=[_POW], playback=True,
@@ -459,3 +463,35 @@ _CACHED = H("c06_recurse_multi_chance_and_cached_root", f"{VAN}::steps", "quick"
             role="a cached node returns its cached payoff without descending; chance value = probability-weighted sum over every outcome")
 REGISTRY["C06"]["harnesses"].append(_CACHED)
 REGISTRY["C08"]["harnesses"].append(_CACHED)
+
+# ---------------------------------------------------------------------------------------------
+# E2 for the external-sampling drivers (their loops could not be carried by Kani)
+def _mirsmt_drivers(keys):
+    def part(prop, tier):
+        import driver_check
+        r = driver_check.run(prop, tier)
+        keep = []
+        for f in r["findings"]:
+            k = f.key.split(":", 1)[1]
+            if any(k.startswith(p) for p in keys):
+                f.native_kind = "c07" if k.startswith("spi-") else ("c06" if k.startswith("vm-") else "xdriver")
+                keep.append(f)
+        r["findings"] = keep
+        r["obligations"] = [o for o in r["obligations"] if any(o[1].startswith(p) for p in keys)]
+        return r
+    return part
+
+
+REGISTRY["C08"]["parts"] = [_mirsmt_drivers(["xs-"])]
+REGISTRY["C09"]["parts"] = [_mirsmt_drivers(["xs-stop", "xs-iteration", "xs-call-counts", "xs-order"])]
+REGISTRY["C07"]["parts"] = [_mirsmt_drivers(["spi-"])]
+REGISTRY["C06"]["parts"] = [_mirsmt_drivers(["vm-"])]
+for _p, _t in (("C08", " The external-sampling driver loop (one iteration: pass order, which table and which advance::<FIRST> each pass uses, iteration index) is decided by E2 on the library's MIR."),
+               ("C09", " For the external-sampling driver the stop decision of one iteration is decided by E2 on the library's MIR: the loop leaves exactly when fp.max(b1,b2) < r, for all f64."),
+               ("C06", " One iteration of the rayon driver closure of solve_generic_multi is executed symbolically from the library's MIR (E2; inner loop unrolled <= 3): the tasks handed to the pool are thread_threshold's queue, their payoffs go into the cache the cached traversal reads, and that cache is cleared at the end of every iteration."),
+               ("C07", " The loop-free single_player_iter is decided by E2 on the library's MIR: cut, tasks into the cache, cached traversal, the same cache cleared after every pass, update.")):
+    REGISTRY[_p]["explanation"] += _t
+    MANIFEST_TEXT[_p]["engine"] = "kani+mirsmt"
+    MANIFEST_TEXT[_p]["technique"] += "; MIR-to-SMT (z3) for the external-sampling driver"
+MANIFEST_TEXT["C09"]["note"] = ("Kani: the full single-thread loop shared by Full and Sampled (any budget <= 3). E2: one iteration of solve_external_single from an arbitrary state (call sequence and stop decision); "
+                                "solve_generic_multi and solve_external_multi's scope closures are outside.")
